@@ -71,6 +71,7 @@ class HarnessResult:
         self.error = None
         self.sites = 0
         self.choices = None
+        self.witnesses = []
 
 
 def run_entry(prog_path, entry, opts, intr_factory=None):
@@ -96,6 +97,7 @@ def run_entry(prog_path, entry, opts, intr_factory=None):
         res.funcs = dict(eng.funcs_used)
         res.stubs = sorted(intr.used)
         res.sites = len(eng.assert_sites)
+        res.witnesses = [dict(w, entry=entry) for w in eng.witnesses]
         for ob in eng.violations:
             res.violations.append({"kind": ob.kind, "msg": ob.msg, "pos": ob.pos, "replay": ob.replay, "entry": entry,
                                    "reached": ob.reached})
@@ -199,6 +201,8 @@ def replay(files, violation, known=(), timeout=300, patches=(), scaled_files=Non
         else:
             return False, "no replay line: " + out[-500:]
     kind = violation["kind"]
+    if kind == "clean":
+        return line.startswith("VERIF-REPLAY: clean"), line
     if kind == "assert":
         # the natively failing assertion may be an earlier one of the same harness (the model violates both): any failed
         # assertion or panic of the real code under the model's inputs is a reproduced violation; the native line is reported
